@@ -21,7 +21,7 @@ SPEC = os.path.join(VERIF, "spec")
 HARNESS = os.path.join(VERIF, "harness")
 OUT = os.path.join(VERIF, "out")
 EVID = os.path.join(VERIF, "evidence")
-REPO = "/repo"
+REPO = os.environ.get("VERIF_REPO", "/repo")      # registered checks always use /repo; a background sweep may point at a snapshot
 
 GOENV = dict(os.environ, GOFLAGS="-mod=mod", GOPROXY="off", GOSUMDB="off", GOTOOLCHAIN="local",
              CGO_ENABLED="1")
